@@ -15,6 +15,7 @@ LEVEL_NOTE = 'Trusted: the join model; cases are well posed (an un-defaulted tab
 RULE = ('random sets of 1-4 inputs, each a scalar or a table over one or two key columns (homogeneous str or int keys, unique per table) with overlapping / disjoint / empty key sets, '
         'any subset of inputs with defaults, previous data for a subset of keys and expiry in {absent, clearly past, clearly future, None} for keys that have previous data; join() directly with '
         'the same inputs; non-trivial = >=2 table inputs with partial key overlap, or a mix of past/future/None expiries; distinct = canonical hash')
+RULE_ALSO = '; added by the coverage audit and round 8: incremental functions f(..., data = <start>) fed their previous output'
 ASSUMPTIONS = ["key columns in `on` are listed in alphabetical order (the library sorts multi-column keys by column name)", 'at least one table input has no default',
                'expiry is only assigned to keys that have previous data (as the quantifier says)', 'zero common keys: None or an empty table are both accepted',
                'value columns are named after the input, `data`, or are the single non-key column']
